@@ -128,11 +128,13 @@ def simulate (sc : Sc) : String :=
   let sFin := releaseHeld O 200 (settle sEnd)
   -- client numbers: 0 = leader, then the followers window by window
   let order := [0, 1, 2, 3].foldl (fun acc w => acc ++ (sc.fol.filter (fun f => f.1 == w)).map (fun _ => w)) ([] : List Nat)
+  -- a client that the scenario closes is reported as `gone`, whether or not its response had already arrived
+  let kinds := [0, 1, 2, 3].foldl (fun acc w => acc ++ (sc.fol.filter (fun f => f.1 == w)).map (fun f => f.2)) ([] : List String)
   let groups := [0, 1, 2, 3].map (fun w =>
     let idx := (List.range order.length).filter (fun i => order[i]? == some w)
-    (w, sortStrings (idx.map (fun i => tokenOf sc sFin (i + 1)))))
+    (w, sortStrings (idx.map (fun i => if kinds[i]? == some "d" then "gone" else tokenOf sc sFin (i + 1)))))
   let parts := groups.filterMap (fun g => if g.2.isEmpty then none else some ("w" ++ toString g.1 ++ ":" ++ ",".intercalate g.2))
-  " ".intercalate (["fetches=" ++ toString sFin.nextE, "L:" ++ tokenOf sc sFin 0] ++ parts)
+  " ".intercalate (["fetches=" ++ toString sFin.nextE, "L:" ++ (if sc.leader.isSome then "gone" else tokenOf sc sFin 0)] ++ parts)
 
 def handle (line : String) : String :=
   match parse line with
